@@ -1,11 +1,16 @@
 use nom::{
-    bytes::complete::tag, character::complete::char, combinator::opt, multi::many0,
+    branch::alt, bytes::complete::tag, character::complete::char, combinator::opt, multi::many0,
     sequence::terminated,
 };
 
 use crate::intermediate::*;
 
-use super::{common::optional_comma, constraint::constraints, sequence::sequence_component, *};
+use super::{
+    common::optional_comma,
+    constraint::constraints,
+    sequence::{extension_group, sequence_component},
+    *,
+};
 
 /// Tries to parse an ASN1 SET
 ///
@@ -32,7 +37,7 @@ pub fn set(input: Input<'_>) -> ParserResult<'_, ASN1Type> {
                         opt(skip_ws_and_comments(char(COMMA))),
                     )),
                     opt(many0(terminated(
-                        skip_ws_and_comments(sequence_component),
+                        skip_ws_and_comments(alt((extension_group, sequence_component))),
                         optional_comma,
                     ))),
                 )),
